@@ -697,7 +697,10 @@ func (x *Exec) realDiv(a, c *smt.Term) *smt.Term {
 	}
 	r, ok := x.recips[c.ID]
 	if !ok {
-		r = x.b.Fresh("recip", "Real")
+		// 1/c as an application of one uninterpreted function: equal denominators
+		// (also when equal only by deduction) give equal reciprocals by congruence
+		x.declareUF("recipf", []string{"Real"}, "Real")
+		r = x.b.App("recipf", "Real", c)
 		x.recips[c.ID] = r
 		zero := x.b.Real(new(big.Rat))
 		x.axiom(x.b.Implies(x.b.Not(x.b.Eq(c, zero)), x.b.Eq(x.b.Mul(r, c), x.b.Real(big.NewRat(1, 1)))))
